@@ -122,6 +122,7 @@ def runRq (rest : List String) : String :=
 
 def step (_ : Unit) : List String → Unit × String
   | "vk" :: era :: _fixture :: _mode :: rest => ((), runVk era rest)
+  | "sy" :: era :: _nin :: _req :: rest => ((), runVk (if era = "mary" then "shelley" else era) rest)
   | "rq" :: _era :: rest => ((), runRq rest)
   | _ => ((), "bad-op")
 
